@@ -168,7 +168,7 @@ def old_syntax_pair(rng):
 def run(rep, tier, seed):
     rng = random.Random(seed * 1000003 + 5)
     quick = tier == "quick"
-    n = 1200 if quick else 25000
+    n = 3500 if quick else 25000
     mg_small = GM.ModelGen(rng, 3, 5, 8)
     mg_big = GM.ModelGen(rng, 6, 14, 40)
     items = []
@@ -186,7 +186,7 @@ def run(rep, tier, seed):
                              Step("parse_doc", 1, rng.choice(["xta_buffer", "xta_file"]), 1, 1, xta)], timeout=60)
         items.append((m, c, faulty))
     # the 3.x syntax switch
-    n_old = 300 if quick else 6000
+    n_old = 1000 if quick else 6000
     for i in range(n_old):
         xml, xta = old_syntax_pair(rng)
         c = Case("o%d" % i, [Step("parse_doc", 0, rng.choice(["xml_buffer", "xml_file"]), 0, 1, xml),
